@@ -1,5 +1,5 @@
 """C16 — equimodular / unimodular verdict and determinant gcd follow the documentation."""
-import itertools, vlib
+import itertools, os, vlib
 from vlib import mat_line, all_matrices, rand_matrix
 
 LEVEL = "proof"
@@ -22,17 +22,36 @@ def nontrivial(line, rec):
     return m >= 2 and n >= 2 and sum(1 for x in t[4:] if x != "0") >= 3
 
 
-def keyfn(line, code, rec=None):
-    # recorded finding: the back-substitution of CMRequimodularTest uses the wrong entries, so matrices whose triangular
-    # basis has off-diagonal entries (k > 1) are reported as not equimodular (false negatives only, variants 0 and 1)
-    if code == 82 and rec is not None:
-        t, r = line.split(), rec.split()
-        if t[0] in ("0", "1") and r[-3] == "0" and r[-2] == "0":
-            return "back-substitution:false-negative"
+# Recorded finding: the back-substitution of CMRequimodularTest uses the wrong entries.  A rejected case is attributed
+# to that finding only if the library built with the recorded two-line repair (known_patches/c16-backsubstitution.diff,
+# which cannot be committed because the pinned test Equimodular.GMP asserts the wrong answer) is accepted by the judge
+# on the very same case; every other rejection keeps its own key and is reported.
+REPAIR = os.path.join(vlib.VERIF, "known_patches", "c16-backsubstitution.diff")
+EXPLAINED = set()
+
+
+def attribute(ctx, lines):
+    """run the stream once, re-run the rejected cases on the repaired build, remember those that pass there"""
+    exe = ctx.drive("rel")
+    recs, _ = vlib.run_drive(exe, "equimod", lines)
+    codes = vlib.run_judge("equimod", recs)
+    bad = [l for l, r, c in zip(lines, recs, codes) if r is not None and c in (82, 83)]
+    if not bad:
+        return
+    fixed = vlib.build_drive("rel", tag="c16repair", repair=REPAIR)
+    recs2, _ = vlib.run_drive(fixed, "equimod", bad)
+    codes2 = vlib.run_judge("equimod", recs2)
+    for l, r, c in zip(bad, recs2, codes2):
+        if r is not None and c == 0:
+            EXPLAINED.add(l)
+    ctx.notes.append("%d rejected case(s), %d of them accepted on the build with the recorded back-substitution repair"
+                     % (len(bad), len(EXPLAINED)))
+
+
+def keyfn(line, code):
+    if code in (82, 83) and line in EXPLAINED:
+        return "back-substitution"
     return line
-
-
-keyfn.wants_record = True
 
 
 def lines_for(M, m, n, rng, ks=(0,)):
@@ -100,6 +119,7 @@ def run(ctx):
         M = [[(rng.choice([-1, 1]) * (2 ** (20 + rng.below(11)) - rng.below(3))) if rng.below(3) else rng.below(3) - 1
               for _ in range(n)] for _ in range(m)]
         big += lines_for(M, m, n, rng, (0,))
+    attribute(ctx, lines + big)
     ctx.stream("equimod", lines, "equimodular/unimodular: exhaustive small, random, constructed, nonsingular",
                describe=lambda c: CODES.get(c, str(c)), nontrivial=nontrivial, keyfn=keyfn)
     ctx.stream("equimod", big, "entries near the 32/64-bit boundary", describe=lambda c: CODES.get(c, str(c)),
